@@ -333,6 +333,12 @@ func execC10Hostile(p *drv.Plan) *Out {
 	}
 	committed := false
 	var addErr, commitErr error
+	// Half of the callers give up at the first error; the others keep feeding
+	// the rest of the stream and call Commit all the same ("all finite sequences
+	// ... fed to Add/Commit"): a rejected Add must leave the importer as it was,
+	// so that whatever is committed in the end holds every node that was accepted.
+	persistent := drv.SubRand(p, "c10-persistent").Chance(1, 2)
+	acceptedLeaves, addErrors := int64(0), 0
 	done := make(chan *drv.Violation, 1)
 	go func() {
 		done <- w3.Guard("C10", "C10.importer-total", p.Mode, func() *drv.Violation {
@@ -349,7 +355,14 @@ func execC10Hostile(p *drv.Plan) *Out {
 			for _, n := range nodes {
 				if err := add(n); err != nil {
 					addErr = err
-					return nil
+					addErrors++
+					if !persistent {
+						return nil
+					}
+					continue
+				}
+				if n != nil && n.Height == 0 {
+					acceptedLeaves++
 				}
 			}
 			if commitErr = imp.Commit(); commitErr == nil {
@@ -397,6 +410,17 @@ func execC10Hostile(p *drv.Plan) *Out {
 	// recomputable from the stored nodes, and iteration terminates
 	if v := consistentImport(w4, h2, importVersion, p.Mode); v != nil {
 		out.Violations = append(out.Violations, v)
+		return out
+	}
+	// ... and complete: every accepted leaf is in the committed tree (the
+	// importer is a stack machine: Commit needs exactly one node on the stack,
+	// under which everything accepted hangs, unless a rejected Add lost nodes)
+	if addErrors > 0 {
+		out.Probes["hostile.committed-after-rejected-add"]++
+	}
+	if it, err := h2.GetImmutable(importVersion); err == nil && it.Size() != acceptedLeaves {
+		out.Violations = append(out.Violations, &drv.Violation{Prop: "C10", Oracle: "C10.committed-complete", Symptom: "accepted-nodes-dropped", Class: p.Mode,
+			Detail: fmt.Sprintf("Commit succeeded after %d rejected Add call(s): the committed tree has %d leaves, %d leaves had been accepted", addErrors, it.Size(), acceptedLeaves)})
 	}
 	return out
 }
